@@ -56,18 +56,31 @@ class K3(PaneBase, in_format=('struct', 'tuple')):
         HOOK[0] += 1
 
 
+class K5(PaneBase, in_format=('struct', 'tuple')):
+    """an init=False field declared before other positional fields"""
+    x: int
+    scale: str = field(init=False, default='unit')
+    y: float = 0.5
+    z: int = 0
+
+    def __post_init__(self):
+        HOOK[0] += 1
+
+
 FIELDS = {
+    K5: (('x', int), ('y', float), ('z', int)),
     K1: (('a', int), ('b', float), ('c', List[int]), ('d', Optional[int])),
     K2: (('a', int), ('b', Dict[str, int]), ('k', str), ('m', List[str])),
     K3: (('p', P1), ('xs', List[int]), ('n', int)),
 }
-NPOS = {K1: 4, K2: 2, K3: 3}
+NPOS = {K1: 4, K2: 2, K3: 3, K5: 3}
 DEFAULTS = {
+    K5: {'y': lambda: 0.5, 'z': lambda: 0},
     K1: {'b': lambda: 1.5, 'c': lambda: [], 'd': lambda: None},
     K2: {'a': lambda: 0, 'b': lambda: {}, 'k': lambda: 'k', 'm': lambda: ['m']},
     K3: {'p': lambda: P1(a=1), 'xs': lambda: [1, 2], 'n': lambda: 7},
 }
-MUTABLE = {K1: ('c',), K2: ('b', 'm'), K3: ('xs',)}
+MUTABLE = {K1: ('c',), K2: ('b', 'm'), K3: ('xs',), K5: ()}
 for _cls in FIELDS:
     make_converter(_cls)
     for (_n, _ty) in FIELDS[_cls]:
@@ -153,6 +166,12 @@ def attempt(f):
         return ('other', e)
 
 
+def _as_data(kw, data_keys):
+    if not data_keys:
+        return dict(kw)
+    return {data_keys.get(k, k): v for (k, v) in kw.items()}
+
+
 def check_instance(cls, x, supplied, exp):
     """x was built from the supplied fields `supplied` (name -> raw argument); exp: name -> expected converted value"""
     for (name, ty) in FIELDS[cls]:
@@ -170,8 +189,9 @@ def check_instance(cls, x, supplied, exp):
     return 0
 
 
-def run_paths(cls, kw, positional, broken_hook=False):
-    """kw: ordered dict name -> raw argument (a prefix of the positional fields when `positional`)"""
+def run_paths(cls, kw, positional, broken_hook=False, data_keys=None):
+    """kw: ordered dict name -> raw argument (a prefix of the positional fields when `positional`);
+    data_keys: field name -> the key (e.g. an alias) under which the mapping data carries it"""
     exp = {}
     all_ok = True
     for (name, ty) in FIELDS[cls]:
@@ -193,7 +213,7 @@ def run_paths(cls, kw, positional, broken_hook=False):
     else:
         r_ctor = attempt(lambda: cls(**kw))
         h1 = HOOK[0]
-        r_data = attempt(lambda: cls.from_data(dict(kw)))
+        r_data = attempt(lambda: cls.from_data(_as_data(kw, data_keys)))
     h2 = HOOK[0]
     if r_data[0] == 'other':
         return 9 if broken_hook else 10
@@ -230,7 +250,7 @@ def run_paths(cls, kw, positional, broken_hook=False):
                 m.append(99)
             else:
                 m['leak'] = 99
-            z = attempt(lambda: cls.from_data(list(args)) if positional else cls.from_data(dict(kw)))
+            z = attempt(lambda: cls.from_data(list(args)) if positional else cls.from_data(_as_data(kw, data_keys)))
             w = attempt(lambda: cls(*args) if positional else cls(**kw))
             for r in (z, w):
                 if r[0] != 'ok':
@@ -313,7 +333,8 @@ def body_k2_keywords(pa: bool, pb: bool, pk: bool, pm: bool, ff: int, sf: int, i
         kw['k'] = val_for('str', _sel(ff, 2, sf), i, s)
     if pm:
         kw['m'] = val_for('list_str', _sel(ff, 3, sf), i, s)
-    return run_paths(K2, kw, False)
+    # the mapping data may spell field b by its alias: values, equality and the set-field record must not care
+    return run_paths(K2, kw, False, data_keys={'b': 'bee'} if i > 0 else None)
 
 
 @obligation(pre="0 <= n <= 2 and 0 <= ff <= 1 and 0 <= sf <= 5 and (ff == 0 or sf <= 2)", witnesses=(0, -1), timeout=300)
@@ -327,6 +348,23 @@ def body_k2_positional(n: int, ff: int, sf: int, i: int, s: str) -> int:
     if n >= 2:
         kw['b'] = val_for('dict_si', _sel(ff, 1, sf), i, s)
     return run_paths(K2, kw, True)
+
+
+# ---- K5 (init=False field in the middle)
+@obligation(pre="0 <= n <= 3 and 0 <= ff <= 2 and 0 <= sf <= 5 and (ff != 1 or sf <= 3)", witnesses=(0, -1), timeout=300)
+def body_k5_positional(n: int, ff: int, sf: int, i: int, s: str) -> int:
+    """K5: positional arguments skip the init=False field on both paths; converted like from_data of each field's own type"""
+    if len(s) > 1:
+        raise OutOfBound()
+    kw = {}
+    if n >= 1:
+        kw['x'] = val_for('int', sf if ff == 0 else 2, i, s)
+    if n >= 2:
+        kw['y'] = val_for('float', _sel(ff, 1, sf), i, s)
+    if n >= 3:
+        kw['z'] = val_for('int', sf if ff == 2 else 2, i, s)
+    r = run_paths(K5, kw, True)
+    return r
 
 
 # ---- K3 (nested dataclass factory; the empty mapping is valid)
@@ -360,7 +398,7 @@ def body_k3_positional(n: int, ff: int, sf: int, i: int, s: str) -> int:
     return run_paths(K3, kw, True)
 
 
-for _cls, _kw in ((K1, {'a': 1}), (K1, {'a': 1, 'c': [1]}), (K1, {}), (K1, {'a': 'x'}), (K2, {}), (K2, {'b': {'q': 1}}), (K3, {}),
+for _cls, _kw in ((K5, {'x': 1, 'y': 2}), (K5, {'x': 1}), (K1, {'a': 1}), (K1, {'a': 1, 'c': [1]}), (K1, {}), (K1, {'a': 'x'}), (K2, {}), (K2, {'b': {'q': 1}}), (K3, {}),
                   (K3, {'p': {'a': 1}})):
     for _pos in (False, True):
         try:
